@@ -75,6 +75,9 @@ CLAIMS = {
               "ms_roundtrip_names_order_partial; placeholder names like deme2 in the original graph are harmless), the counterexamples showing each hypothesis is needed "
               "(ms_roundtrip_acceptance_counterexample = ms_roundtrip_pulse1_counterexample: known finding F6; toMs_tame_needs_pulse_order, toMs_tame_needs_pulse_below_one), "
               "ms_roundtrip_accepts_order_not_necessary (the pulse-order clause of PulsesTame comes from the method: a chain A->B, B->C at one time is accepted), "
+              "toMs_output_tame2 (on to_ms output the wider fragment Tame2 of C08 coincides with Tame', and both hold iff PulsesTame: the clause cannot be dropped that way), "
+              "ms_roundtrip_sizes_migs / ms_roundtrip_growth_sizes_migs (with NO condition on the pulses, given acceptance: populations, lifetimes, sizes at every time and migration rates "
+              "of the returned graph are right; only its lineage movements are not covered), "
               "ingress_tolerance_witness. Epochs with exponential growth: toMs_msSem_bridge_growth, ms_roundtrip_growth_accepts, ms_roundtrip_growth_sem_all (EVERY valid ms-expressible graph with "
               "PulsesTame pulses and any growth printer that prints 0 as 0 and equal rates alike: from_ms accepts to_ms's output and the result is EXACTLY the graph with every growth "
               "rate replaced by its printed value (regrow) — populations, lifetimes, migrations, movements exact, sizes exact wherever they do not depend on a printed rate: "
